@@ -70,7 +70,7 @@ if which=="mirror":
      "checks":"find(mirror(P), RightToLeft, reverse(text), n-s) is the mirror image of find(P, text, s): both fail or index' = n-index-length, same length, every capture of every named group mirrored, in the same order"}
 elif which=="class":
     rec={"function":"the class parser (scanCharSet, shorthand escapes, negation, subtraction) and the IgnoreCase closure of classes, up to the CharSet the proofs of C16 start from",
-     "bound":"%d class expressions: one or two items out of a z A 0 _ - U+00E9 U+007F a-c A-C x-z 0-5 space-/ U+0000-a \\d \\D \\w \\W \\s \\S (%s two-item combinations), plain and negated, without and with one of six subtracted classes (one of them with its own subtraction); shapes ^C$, ^C+$, x?C; options None, IgnoreCase, ECMAScript, IgnoreCase|ECMAScript, RightToLeft (subtraction where the syntax has it; the complement shorthands left out under IgnoreCase, where the case mapping of U+0130 and U+212A has no agreed meaning); every rune of U+0000..U+007F and ten runes above"%(pats,"all" if lvl>=2 else "half of the"),
+     "bound":"%d class expressions: one or two items out of a z A 0 _ - U+00E9 U+007F a-c A-C x-z 0-5 space-/ U+0000-a \\d \\D \\w \\W \\s \\S (%s two-item combinations), in default mode also \\p{Ll} \\p{Lu} \\P{L} \\p{Nd} \\P{Nd}, in RE2 mode also eight POSIX names (plain and negated), plain and negated, without and with one of six subtracted classes (one of them with its own subtraction); shapes ^C$, ^C+$, x?C; options None, IgnoreCase, ECMAScript, IgnoreCase|ECMAScript, RightToLeft, RE2, RE2|IgnoreCase (subtraction where the syntax has it; complements and categories left out under IgnoreCase, where the case mapping of U+0130 and U+212A has no agreed meaning); every rune of U+0000..U+007F and fourteen runes above"%(pats,"all" if lvl>=2 else "half of the"),
      "checks":"the engine matches the one-rune text exactly when set algebra over the parts of the expression says the rune is a member (items united, closed under simple case folding with IgnoreCase, complemented if negated, minus the subtracted class)"}
 elif which=="stack":
     rec={"function":"executeDefault with a backtracking stack limit (the interpreter's push/pop discipline between two calls of ensureStorage, unwinding after a capped growth step)",
